@@ -176,6 +176,43 @@ def build_dir():
     return _build_root
 
 
+BUILD_SLOTS = int(os.environ.get("VERIF_BUILD_SLOTS", "6"))
+
+
+@contextlib.contextmanager
+def build_slot():
+    """Machine-wide semaphore for selene builds: measured throughput of concurrent zig
+    invocations peaks at ~4-6 and drops beyond (16 at once are slower in total than 4)."""
+    import fcntl
+    import time
+
+    d = os.path.join(os.path.dirname(os.path.dirname(os.path.abspath(__file__))), ".work", "slots")
+    os.makedirs(d, exist_ok=True)
+    fds = []
+    try:
+        held = None
+        start = os.getpid() % BUILD_SLOTS
+        while held is None:
+            for k in range(BUILD_SLOTS):
+                i = (start + k) % BUILD_SLOTS
+                fd = os.open(os.path.join(d, f"s{i}"), os.O_CREAT | os.O_RDWR)
+                try:
+                    fcntl.flock(fd, fcntl.LOCK_EX | fcntl.LOCK_NB)
+                    held = fd
+                    break
+                except OSError:
+                    os.close(fd)
+            if held is None:
+                time.sleep(0.03)
+        yield
+    finally:
+        if held is not None:
+            try:
+                fcntl.flock(held, fcntl.LOCK_UN)
+            finally:
+                os.close(held)
+
+
 def norm_value(v):
     """Result values as plain Python (bools -> 0/1 as the stream reports them)."""
     if isinstance(v, bool):
